@@ -138,11 +138,36 @@ Print Assumptions C11_tt_never_waits_on_lock.
    from the generated table) blocks the transport thread behind it, and from then on nothing is ever emitted
    and the flag is never set: the exchange stalls with only the KEXINIT sent *)
 Theorem C11_locked_send_would_deadlock :
-  let s := run_gen true (init_st false) [UserRekey; UserSendLocked 96; Recv 93 false] in
+  let s := run_gen true true (init_st false) [UserRekey; UserSendLocked 96; Recv 93 false] in
   needs_lock 93 = true /\ ttl s = true /\ map fst (out s) = [20] /\
-  forall evs, out (run_gen true s evs) = out s /\ cts (run_gen true s evs) = false.
+  forall evs, out (run_gen true true s evs) = out s /\ cts (run_gen true true s evs) = false.
 Proof. exact locked_send_would_deadlock. Qed.
 Print Assumptions C11_locked_send_would_deadlock.
+
+(* the NEWKEYS window.  `run` above is the LTS in which _parse_newkeys writes in_kex and sets clear_to_send in
+   ONE clear_to_send_lock section and signals completion_event only afterwards (v1).  The working tree is that
+   LTS exactly when the translator finds that shape (nk_atomic, generated): *)
+Theorem C11_tree_is_v1 : nk_atomic = true -> forall s e, step_tree s e = step s e.
+Proof. exact tree_is_v1. Qed.
+Print Assumptions C11_tree_is_v1.
+
+(* v0 (completion_event signalled first): a renegotiate_keys issued as soon as the previous call returned has
+   its clear() undone by the transport thread's late clear_to_send.set(); a USER message follows the new
+   KEXINIT.  C11_user_sends_gated is false for v0. *)
+Theorem C11_newkeys_window_v0_refuted :
+  let evs := [UserRekey; Recv 20 false; Recv 31 false; Recv 21 false; UserRekey; TtLate; UserSend 94] in
+  In (94, OUser) (offenders false (out (run_gen false false (init_st false) evs))) /\
+  map fst (out (run_gen false false (init_st false) evs)) = [20; 30; 21; 20; 94].
+Proof. exact v0_user_send_after_kexinit. Qed.
+Print Assumptions C11_newkeys_window_v0_refuted.
+
+(* the same schedule in v1 (covered in general by C11_user_sends_gated / C11_queued_delivered) *)
+Theorem C11_newkeys_window_v1_gated :
+  let evs := [UserRekey; Recv 20 false; Recv 31 false; Recv 21 false; UserRekey; TtLate; UserSend 94;
+              Recv 20 false; Recv 31 false; Recv 21 false; UserWake] in
+  map fst (out (run (init_st false) evs)) = [20; 30; 21; 20; 30; 21; 94].
+Proof. exact v1_same_schedule_gated. Qed.
+Print Assumptions C11_newkeys_window_v1_gated.
 
 (* the shape of the gate, of the flag's writers and of the callers of the ungated primitive, as found in
    the source by gen/c11.py (these justify the step function of the model) *)
